@@ -286,6 +286,26 @@ impl Check for C03 {
                             sig = "c03_data_rejected:builtin_instance_under_object_member_of_intersection".to_string();
                         }
                     }
+                    // validators read declared properties through the prototype chain: an object without a prototype that lacks
+                    // an optional `toString` / `constructor` / ... is accepted, but the data parse builds from it is an ordinary
+                    // object, which inherits a function under that name, and is rejected when validated (or parsed) again
+                    if sig == "c03_data_rejected" || p.starts_with("parse(data) threw") {
+                        fn has_null_proto(v: &JsVal) -> bool {
+                            match v {
+                                JsVal::Obj(kv, proto) => *proto == crate::jsval::Proto::Null || kv.iter().any(|(_, x)| has_null_proto(x)),
+                                JsVal::Arr(xs) | JsVal::Set(xs) => xs.iter().any(has_null_proto),
+                                JsVal::Map(kv) => kv.iter().any(|(k, x)| has_null_proto(k) || has_null_proto(x)),
+                                _ => false,
+                            }
+                        }
+                        let declares_inherited_name = crate::c02::reaches(q.env, q.d, &mut |n| match n {
+                            D::Object { props, .. } => props.iter().any(|pr| crate::jsval::HOSTILE.contains(&pr.key.as_str())),
+                            _ => false,
+                        });
+                        if has_null_proto(q.v) && declares_inherited_name {
+                            sig = "c03_data_rejected:null_prototype_input_with_declared_inherited_name".to_string();
+                        }
+                    }
                     out.mismatch(ctx, &sig, p.to_string(), json!({"validator": q.desc, "type": q.d, "value": q.v, "value_tagged": q.v.to_tagged(), "observed": r["obs"], "problems": ps}));
                 }
             }
